@@ -246,6 +246,7 @@ func axiomTypeListsAndTuples() bool {
 		vs.ForallRef(func(t *types.Tuple) bool { return t.Len() >= 0 && t.Len() < 1<<30 }) &&
 		vs.ForallRef(func(t *types.Interface) bool { return t.NumMethods() >= 0 && t.NumMethods() < 1<<30 }) &&
 		vs.ForallRef(func(t *types.Struct) bool { return t.NumFields() >= 0 && t.NumFields() < 1<<30 }) &&
+		vs.ForallRef(func(s *types.Slice) bool { return s.Elem() != nil }) &&
 		vs.ForallRef(func(c *types.Chan) bool {
 			return c.Dir() == types.SendRecv || c.Dir() == types.SendOnly || c.Dir() == types.RecvOnly
 		})
